@@ -243,9 +243,9 @@ const FIELD_ALPHA: [(&str, &str); 25] = [
 const VARIANT_ALPHA: [(&str, &str); 12] = [
     ("rename", "str"), ("rename", "true"), ("skip", "word"), ("skip", "false"), ("word", "word"), ("word", "false"), ("word", "str"), ("bogus", "str"), ("@bare", ""), ("@nv", ""), ("@lit", ""), ("@junk", ""),
 ];
-const CONT_ALPHA: [(&str, &str); 30] = [
+const CONT_ALPHA: [(&str, &str); 31] = [
     ("default", "word"), ("default", "words"), ("rename_all", "rule"), ("rename_all", "str"), ("map", "str"), ("and_then", "str"), ("allow_unknown_fields", "word"),
-    ("allow_unknown_fields", "str"), ("attributes", "words"), ("attributes", "str"), ("forward_attrs", "word"), ("forward_attrs", "words"), ("from_ident", "word"),
+    ("allow_unknown_fields", "str"), ("attributes", "words"), ("attributes", "str"), ("forward_attrs", "word"), ("forward_attrs", "words"), ("forward_attrs", "empty"), ("from_ident", "word"),
     ("from_word", "path"), ("from_word", "str"), ("from_none", "closure"), ("supports", "shapes"), ("supports", "badshape"), ("supports", "dblprefix"), ("supports", "anybad"), ("bound", "preds"), ("bound", "str"), ("::map", "str"), ("::default", "word"), ("bogus", "words"),
     ("bogus", "word"), ("@bare", ""), ("@nv", ""), ("@lit", ""), ("@junk", ""),
 ];
